@@ -8,6 +8,14 @@ HISTORY = {
     "C06-struct-pattern-hash-order": "missed at first: no subject iterated a struct pattern's fields; subject structs-enums-patterns added",
     "C07-prettify-byte-offset": "first trial was masked by a regression of my own repository fix (found by this very run, repaired); caught since by the multi-byte byte-pair cases",
     "C10-input-cursor-empty-party": "missed at first: no enumerated party shape had a zero-width party; shapes [1,0,1], [0,0,2], [0,1], [1,0], ... and zero-width-parameter programs added",
+    "C01-if-cond-side-effect-dropped": "missed at first: no family placed a side-effecting block in an `if` condition (or any other non-operand expression position); family X (effect blocks in every expression position) added - it also exposed four genuine defects of the unchanged tree",
+    "C02-mul-zero-skips-operand": "missed at first: no failing operand under a multiplication by the literal 0; family X contexts whose value does not depend on the hole (0*H, H&0, (H,7).1, if true {..}, ...) added",
+    "C05-join-dummy-row-width": "missed at first: all join programs had a second table at least as wide as the first; a-wider payloads added to C13 (loops and built-in) and join shape programs to C05",
+    "C06-register-free-unused-inputs-hash-order": "first trial ended in a machinery failure (exit 2: n! overflow for a 50-entry map); fixed, then detected",
+    "C07-recursive-pub-fn-empty-errors": "missed at first: recursion was only seeded for private fns and C07 never substituted a program's own identifiers; identifier cross-substitution (C07) and self / mutual recursion through pub fns (C17) added - the former exposed two more genuine defects (recursive types, const/parameter shadowing)",
+    "C09-signed-min-decode": "detected; note that one randomized test of the repository's own suite also catches it in some runs",
+    "C14-foreach-empty-array-scope-leak": "missed at first: no loop over a zero-width array next to a shadowing binding; degenerate-loop contexts added to family X",
+    "C17-pub-fn-no-params-skipped-if-callee": "missed at first: the parameterless pub fn of rule PubFnNoParams was never called; rule PubFnNoParamsCalled (defined before / after its caller) and a C06 subject added",
     "C17-match-arms-share-scope": "missed at first: UseAfterScope only covered loop variables and block locals; replaced by a reference model of lexical scoping (every use x every name bound elsewhere but not in scope)",
 }
 rows = []
